@@ -750,6 +750,8 @@ func checkC05(c *Ctx, r *Report) {
 	r.Exhaustive = true
 	r.rule("C05.R1", "encoder and decoder agree on kinds, special types, conventions and element parameters", 5)
 	r.rule("C05.R2", "every schema type is decodable: members and alternatives tagged, tags unique, leaf kinds handled (exhaustive)", 190)
+	r.rule("C05.R11", "a member the encoder cannot encode makes the whole encoding fail (shared with C04.R6): an error that is dropped leaves the member out or encodes something else, and the value read back differs without any error", 4)
+	r.rule("C05.R12", "the decoder refuses no tag number the encoder writes: an error exit decided by the value of the tag number leaves 31..2^21 (everything the high-tag-number form is used for) accepted", 1)
 	r.rule("C05.R3", "unsupported constructs return an error in both halves", 2)
 	r.rule("C05.R4", "decoder stores values of the right type (reflect Set assignability)", 3)
 	r.rule("C05.R10", "the decoder takes class, form and tag number from the bits the encoder (and X.690 8.1.2) puts them in", 5)
@@ -785,11 +787,14 @@ func checkC05(c *Ctx, r *Report) {
 
 	c04ErrorPropagationOID(c, r, mk, "C05.R3")
 	c04ErrorPropagationOID(c, r, pf, "C05.R3")
+	c04ErrorPropagation(c, r, mk, "C05.R11")
+	c04ErrorPropagation(c, r, c.fn("cdr/asn", "BerMarshalWithParams"), "C05.R11")
 	c16ReflectSetRule(c, r, "C05.R4")
 	// 6 octets hold 2^48-1, more than any Go slice can be long: the decoder has to accept what the encoder can emit
 	c16PostsW(c, r, "C05.R5", 6)
 	c05IntegerSigned(c, r, "C05.R7")
 	c05DescentOffsets(c, r, "C05.R8")
+	c05TagAcceptRange(c, r, "C05.R12")
 	c04DigitCounts(c, r, "C05.R9")
 	berHeaderDecoder(c, r, "C05.R10")
 	codecPurity(c, r, []*ssa.Function{c.fn("cdr/asn", "UnmarshalWithParams"), c.fn("cdr/asn", "Unmarshal")}, modPath+"/cdr/asn", "C05.R6", "decode")
@@ -868,7 +873,9 @@ func c04ContentAssigned(c *Ctx, r *Report, f *ssa.Function, rule string) {
 		return
 	}
 	// the object whose member is used most is the one the function assembles its result in
-	sort.SliceStable(cands, func(i, j int) bool { return fieldUseCount(cands[i].a, cands[i].idx) > fieldUseCount(cands[j].a, cands[j].idx) })
+	sort.SliceStable(cands, func(i, j int) bool {
+		return fieldUseCount(cands[i].a, cands[i].idx) > fieldUseCount(cands[j].a, cands[j].idx)
+	})
 	enc, fieldIdx := cands[0].a, cands[0].idx
 	isValueAddr := func(v ssa.Value) bool {
 		fa, ok := v.(*ssa.FieldAddr)
@@ -1163,4 +1170,134 @@ func polyOrZero(p poly) string {
 		return s
 	}
 	return "0"
+}
+
+// c05TagAcceptRange (C05.R12): comparisons of the parsed tag number with a constant that
+// decide an error exit of the tag parser.  The encoder uses the high-tag-number form for
+// every number above 30 (C04.R10), so none of 31..2^21 may be refused.
+func c05TagAcceptRange(c *Ctx, r *Report, rule string) {
+	f := c.fn("cdr/asn", "parseTagAndLength")
+	isTag := func(v ssa.Value) bool {
+		seen := map[ssa.Value]bool{}
+		var visit func(v ssa.Value, d int) bool
+		visit = func(v ssa.Value, d int) bool {
+			if v == nil || seen[v] || d > 12 {
+				return false
+			}
+			seen[v] = true
+			switch x := v.(type) {
+			case *ssa.UnOp:
+				if x.Op == token.MUL {
+					if fa, ok := x.X.(*ssa.FieldAddr); ok && fieldName(fa) == "tagNumber" {
+						return true
+					}
+				}
+			case *ssa.BinOp:
+				if x.Op == token.SHL {
+					if k, ok := constInt(x.Y); ok && k == 7 {
+						return true
+					}
+				}
+				return visit(x.X, d+1) || visit(x.Y, d+1)
+			case *ssa.Convert:
+				return visit(x.X, d+1)
+			case *ssa.ChangeType:
+				return visit(x.X, d+1)
+			case *ssa.Phi:
+				for _, e := range x.Edges {
+					if visit(e, d+1) {
+						return true
+					}
+				}
+			}
+			return false
+		}
+		return visit(v, 0)
+	}
+	const lo, hi = 31, 1 << 21
+	n := 0
+	for _, b := range f.Blocks {
+		if len(b.Instrs) == 0 || len(b.Succs) != 2 {
+			continue
+		}
+		iff, ok := b.Instrs[len(b.Instrs)-1].(*ssa.If)
+		if !ok {
+			continue
+		}
+		bo, ok := iff.Cond.(*ssa.BinOp)
+		if !ok {
+			continue
+		}
+		var k int64
+		op := bo.Op
+		if kk, isK := constInt(bo.Y); isK && isTag(bo.X) {
+			k = kk
+		} else if kk, isK := constInt(bo.X); isK && isTag(bo.Y) {
+			k = kk
+			switch op { // K op x  ->  x op' K
+			case token.LSS:
+				op = token.GTR
+			case token.LEQ:
+				op = token.GEQ
+			case token.GTR:
+				op = token.LSS
+			case token.GEQ:
+				op = token.LEQ
+			}
+		} else {
+			continue
+		}
+		// the set of tag numbers for which the condition holds, cut to [lo, hi]
+		holds := func(x int64) bool {
+			switch op {
+			case token.LSS:
+				return x < k
+			case token.LEQ:
+				return x <= k
+			case token.GTR:
+				return x > k
+			case token.GEQ:
+				return x >= k
+			case token.EQL:
+				return x == k
+			case token.NEQ:
+				return x != k
+			}
+			return true
+		}
+		for i, succ := range b.Succs {
+			rejects := false
+			for _, ri := range returnsOf(f) {
+				if len(ri.Vals) == 0 {
+					continue
+				}
+				ev := ri.Vals[len(ri.Vals)-1]
+				if call, ok := ev.(*ssa.Call); ok && edgeDominates(b, succ, ri.At) {
+					if obj := calleeObj(&call.Call); obj != nil && (obj.Name() == "Errorf" || obj.Name() == "New") {
+						rejects = true
+					}
+				}
+			}
+			if !rejects {
+				continue
+			}
+			n++
+			// witnesses: the ends of the range and the neighbours of the constant
+			bad := int64(-1)
+			for _, x := range []int64{lo, lo + 1, hi, hi - 1, k - 1, k, k + 1} {
+				if x < lo || x > hi {
+					continue
+				}
+				if holds(x) == (i == 0) {
+					bad = x
+					break
+				}
+			}
+			key := fmt.Sprintf("%s|tag number %s %d", fnKey(f), bo.Op, k)
+			r.check(bad < 0, rule, key, c.rel(bo.Pos()), "the refused numbers lie outside 31..2^21", fmt.Sprintf("the decoder refuses tag number %d, which the encoder writes (in the high-tag-number form, X.690 8.1.2.4: every number above 30): a member or alternative with that tag encodes but cannot be read back", bad))
+		}
+	}
+	if n == 0 {
+		r.proven(rule, fnKey(f)+"|no refusal by tag value", c.rel(f.Pos()), "no error exit of the tag parser is decided by the value of the tag number")
+	}
 }
